@@ -12,6 +12,7 @@ import (
 	"strings"
 	"time"
 
+	appparams "github.com/chain4energy/c4e-chain/app/params"
 	cfeminter "github.com/chain4energy/c4e-chain/x/cfeminter"
 	mintertypes "github.com/chain4energy/c4e-chain/x/cfeminter/types"
 	codectypes "github.com/cosmos/cosmos-sdk/codec/types"
@@ -89,6 +90,14 @@ func runMinterBlocks(ta *TestApp, params mintertypes.Params, st mintertypes.Mint
 	}
 	k.SetMinterState(ctx, st)
 	supply0 = app.BankKeeper.GetSupply(ctx, denom).Amount.BigInt()
+	obs, hist = stepMinterBlocks(ta, ctx, times, denom)
+	return
+}
+
+// stepMinterBlocks runs BeginBlocker at each time on the given context (which keeps the state between calls).
+func stepMinterBlocks(ta *TestApp, ctx sdk.Context, times []time.Time, denom string) (obs []minterBlockObs, hist []mintertypes.MinterState) {
+	app := ta.App
+	k := app.CfeminterKeeper
 	for _, t := range times {
 		bctx := ctx.WithBlockTime(t).WithEventManager(sdk.NewEventManager())
 		o := minterBlockObs{minted: bi(0)}
@@ -414,36 +423,8 @@ func runMinterCase(ta *TestApp, seed uint64, idx int, rep *Report, profile strin
 		}
 		obs, supply0, hist := runMinterBlocks(ta, params, st, times, c.denom)
 		rep.Count(fmt.Sprintf("partition.style%d", style))
-		var blocks []string
-		tot := bi(0)
 		cid := idx*10 + pi
-		prevInfl, prevSupply := (*big.Int)(nil), (*big.Int)(nil)
-		var prevT time.Time
-		prevSeq := int64(-1)
-		for bi_, o := range obs {
-			rep.Ops++
-			if o.panicked {
-				rep.Panics = append(rep.Panics, fmt.Sprintf("case %d block %d at %d: BeginBlocker panicked", cid, bi_, times[bi_].UnixNano()))
-				blocks = append(blocks, zPair(zI(times[bi_].UnixNano()), "[(-1)]"))
-				break
-			}
-			ev := o.obs[len(o.obs)-1]
-			mo := o.obs[:len(o.obs)-1]
-			blocks = append(blocks, zPair(zI(times[bi_].UnixNano()), zListB(mo)))
-			tot.Add(tot, o.minted)
-			rep.Eval("C02.amount_nonnegative", o.minted.Sign() >= 0, cid, bi_, fmt.Sprintf("minted %v", o.minted))
-			rep.Eval("C18.mint_event_amount", ev.Cmp(o.minted) == 0, cid, bi_, fmt.Sprintf("event %v supply delta %v", ev, o.minted))
-			// C19: inflation reported after the previous block vs what this block minted
-			seq := mo[2].Int64()
-			if prevInfl != nil && seq == prevSeq {
-				checkInflation(rep, c, cid, bi_, prevInfl, prevSupply, prevT, times[bi_], o.minted, seq, k10 && !prevT.After(st.LastMintBlockTime))
-			}
-			prevInfl, prevSupply, prevT, prevSeq = mo[9], mo[7], times[bi_], seq
-			if mo[8].Sign() <= 0 {
-				prevInfl = nil
-			}
-			checkInflationZero(rep, c, cid, bi_, times[bi_], seq, mo[8], mo[9], k10 && !times[bi_].After(st.LastMintBlockTime))
-		}
+		blocks, tot := minterBlockTerms(rep, c, cid, times, obs, k10, st)
 		_ = supply0
 		totals = append(totals, tot)
 		// C02: a finished linear period has minted exactly its configured amount
@@ -465,6 +446,9 @@ func runMinterCase(ta *TestApp, seed uint64, idx int, rep *Report, profile strin
 			rep.Samples = append(rep.Samples, fmt.Sprintf("minter case %d: %s ; %d blocks up to %d ; total %v", cid, c.paramsTerm(), len(times), T.UnixNano(), tot))
 		}
 	}
+	if !k10 && rng.Chance(40) {
+		terms = append(terms, runMinterUpdateLeg(ta, rng, c, st, t0, T, idx, rep)...)
+	}
 	same := true
 	for _, t := range totals[1:] {
 		if t.Cmp(totals[0]) != 0 {
@@ -479,6 +463,124 @@ func runMinterCase(ta *TestApp, seed uint64, idx int, rep *Report, profile strin
 	}
 	rep.NoteCase(c.paramsTerm()+T.String(), totals[0].Sign() > 0)
 	return terms
+}
+
+// the known-finding class a stuck minter state belongs to: K10 (genesis last-mint time in the future) or K13 (a governance
+// update lowered the running period's amount below what the period already minted)
+var stuckClass = "K10"
+
+// minterBlockTerms prints the observations of a run of blocks for the model comparison and evaluates the per-block predicates
+// (C02 amounts, C18 mint event, C19 inflation against what the next block mints) under configuration c.
+func minterBlockTerms(rep *Report, c minterCfg, cid int, times []time.Time, obs []minterBlockObs, k10 bool, st mintertypes.MinterState) (blocks []string, tot *big.Int) {
+	tot = bi(0)
+	prevInfl, prevSupply := (*big.Int)(nil), (*big.Int)(nil)
+	var prevT time.Time
+	prevSeq := int64(-1)
+	for bi_, o := range obs {
+		rep.Ops++
+		if o.panicked {
+			rep.Panics = append(rep.Panics, fmt.Sprintf("case %d block %d at %d: BeginBlocker panicked", cid, bi_, times[bi_].UnixNano()))
+			blocks = append(blocks, zPair(zI(times[bi_].UnixNano()), "[(-1)]"))
+			break
+		}
+		ev := o.obs[len(o.obs)-1]
+		mo := o.obs[:len(o.obs)-1]
+		blocks = append(blocks, zPair(zI(times[bi_].UnixNano()), zListB(mo)))
+		tot.Add(tot, o.minted)
+		rep.Eval("C02.amount_nonnegative", o.minted.Sign() >= 0, cid, bi_, fmt.Sprintf("minted %v", o.minted))
+		rep.Eval("C18.mint_event_amount", ev.Cmp(o.minted) == 0, cid, bi_, fmt.Sprintf("event %v supply delta %v", ev, o.minted))
+		rep.Eval("C20.inflation_query_no_panic", mo[8].Sign() >= 0, cid, bi_, fmt.Sprintf("the Inflation query panicked at block time %d (supply of the mint denomination: %v)", times[bi_].UnixNano(), mo[7]))
+		// C19: inflation reported after the previous block vs what this block minted
+		seq := mo[2].Int64()
+		if prevInfl != nil && seq == prevSeq {
+			checkInflation(rep, c, cid, bi_, prevInfl, prevSupply, prevT, times[bi_], o.minted, seq, k10 && !prevT.After(st.LastMintBlockTime))
+		}
+		prevInfl, prevSupply, prevT, prevSeq = mo[9], mo[7], times[bi_], seq
+		if mo[8].Sign() <= 0 {
+			prevInfl = nil
+		}
+		checkInflationZero(rep, c, cid, bi_, times[bi_], seq, mo[8], mo[9], k10 && !times[bi_].After(st.LastMintBlockTime))
+	}
+	return
+}
+
+// runMinterUpdateLeg: a governance update in the middle of a history, in one context (one process, as on a node): the blocks
+// up to a random point run under configuration c, then Keeper.UpdateParams replaces the amounts of the running and all later
+// periods (ids, times, kinds, steps and multipliers stay), and the remaining blocks run under the new configuration. The
+// second part is compared with the model started from the state the implementation held right after the update.
+func runMinterUpdateLeg(ta *TestApp, rng *Rng, c minterCfg, st mintertypes.MinterState, t0, T time.Time, idx int, rep *Report) []string {
+	times := genPartition(rng, c, t0, T, 0)
+	if len(times) < 3 {
+		return nil
+	}
+	cut := 1 + rng.Intn(len(times)-1)
+	app := ta.App
+	ctx, _ := ta.Ctx().CacheContext()
+	mk := app.CfeminterKeeper
+	if err := mk.SetParams(ctx, c.params()); err != nil {
+		panic(err)
+	}
+	mk.SetMinterState(ctx, st)
+	obs1, _ := stepMinterBlocks(ta, ctx, times[:cut], c.denom)
+	for _, o := range obs1 {
+		if o.panicked {
+			return nil // reported by the ordinary partitions
+		}
+	}
+	cur := mk.GetMinterState(ctx).SequenceId
+	c2 := c
+	c2.minters = append([]genMinter{}, c.minters...)
+	changed, lowered := false, false
+	for i := range c2.minters {
+		g := &c2.minters[i]
+		if g.seq >= cur && g.kind != 0 {
+			switch rng.Pick(3, 1, 3) {
+			case 0:
+				g.amt = new(big.Int).Add(new(big.Int).Mul(g.amt, bi(4)), bi(1))
+			case 1:
+				// lowering the running period's amount can leave it below what the period already minted: Mint then returns
+				// early on every block (negative amount), the period never hands over and the schedule is frozen (finding K13)
+				if g.amt.Cmp(bi(3)) > 0 {
+					lowered = lowered || g.seq == cur
+				}
+				g.amt = new(big.Int).Add(new(big.Int).Quo(g.amt, bi(3)), bi(1))
+			default:
+				g.amt = new(big.Int).Add(g.amt, bi(1+rng.I64n(1000)))
+			}
+			changed = true
+		}
+	}
+	if !changed {
+		return nil
+	}
+	if err := mk.UpdateParams(ctx, appparams.GetAuthority(), c2.params()); err != nil {
+		rep.Eval("C13.minter_update_keeping_the_current_period_is_accepted", false, idx*10+5, cut, err.Error())
+		return nil
+	}
+	rep.Count("update_leg")
+	s1 := mk.GetMinterState(ctx)
+	h1 := mk.GetAllMinterStateHistory(ctx)
+	sort.Slice(h1, func(i, j int) bool { return h1[i].SequenceId < h1[j].SequenceId })
+	var hs []string
+	for _, e := range h1 {
+		hs = append(hs, zPair(fmt.Sprint(e.SequenceId), stateTerm(*e)))
+	}
+	supply1 := app.BankKeeper.GetSupply(ctx, c.denom).Amount.BigInt()
+	obs2, _ := stepMinterBlocks(ta, ctx, times[cut:], c.denom)
+	cid := idx*10 + 5
+	if lowered {
+		stuckClass = "K13"
+		rep.Count("update_leg.running_amount_lowered")
+	}
+	// a lowered running amount: every block of the rest of the history is in the class (the state may be frozen for good)
+	s1k := s1
+	if lowered {
+		s1k.LastMintBlockTime = times[len(times)-1]
+	}
+	blocks, _ := minterBlockTerms(rep, c2, cid, times[cut:], obs2, lowered, s1k)
+	stuckClass = "K10"
+	return []string{fmt.Sprintf("{| mc_id := %d; mc_world := {| mw_params := %s; mw_state := %s; mw_hist := %s; mw_supply := %s |};\n mc_valid := true; mc_blocks := [\n  %s] |}",
+		cid, c2.paramsTerm(), stateTerm(s1), zList(hs), zB(supply1), strings.Join(blocks, ";\n  "))}
 }
 
 // scheduleCumulative: floor of the cumulative emission at T, with the SDK's 18-digit arithmetic for the
@@ -586,7 +688,7 @@ func checkInflation(rep *Report, c minterCfg, cid, step int, infl, supply *big.I
 	}
 	predName := "C19.rate_matches_emission"
 	if stuck {
-		predName = "C19.rate_matches_emission.K10"
+		predName = "C19.rate_matches_emission." + stuckClass
 	}
 	rep.Eval(predName, diff.Cmp(tol) <= 0, cid, step,
 		fmt.Sprintf("minted %v predicted %v tol %v (inflation %v supply %v dt %v period %d)", minted, pred, tol, infl, supply, dt, seq))
@@ -604,7 +706,7 @@ func checkInflationZero(rep *Report, c minterCfg, cid, step int, now time.Time, 
 	if g.end != nil && !now.Before(*g.end) {
 		pred := "C19.zero_after_end"
 		if stuck {
-			pred = "C19.zero_after_end.K10"
+			pred = "C19.zero_after_end." + stuckClass
 		}
 		rep.Eval(pred, infl.Sign() == 0, cid, step, fmt.Sprintf("inflation %v although period %d ended", infl, seq))
 	}
